@@ -27,7 +27,10 @@ NAN = float('nan')
 DRIVER = 'drv_loop_pantr'
 MODULES = ['Alpaqa.Props.C03_Pantr', 'Alpaqa.Props.C05_Pantr', 'Alpaqa.Props.C06_Pantr',
            'Alpaqa.Props.C19_Pantr']
-EXTRA_SOURCES = ['Alpaqa/Model/Pantr.lean', 'Alpaqa/Proofs/PantrInv.lean', 'Driver/LoopPantr.lean',
+EXTRA_SOURCES = ['Alpaqa/Model/Pantr.lean', 'Alpaqa/Proofs/PantrInv.lean', 'Alpaqa/Proofs/PantrOrd.lean',
+                 'Alpaqa/Proofs/PantrFuel.lean', 'Alpaqa/Proofs/PantrChain.lean',
+                 'Alpaqa/Proofs/PantrExample.lean', 'Alpaqa/Proofs/PantrExampleQ.lean',
+                 'Alpaqa/Proofs/ProxContract.lean', 'Driver/LoopPantr.lean',
                  'Driver/ReplayCommon.lean', 'Alpaqa/Gen/C05.lean', 'Alpaqa/Gen/C06.lean']
 GEN_SCRIPTS = ['gen_c05.py', 'gen_c06.py']
 LIB_SUBSET = ['problem/type-erased-problem.cpp', 'inner/internal/panoc-helpers.cpp',
